@@ -5,6 +5,7 @@ import CogentModel.Model.ControllerLf
 import CogentModel.Model.ControllerFail
 import CogentModel.Model.ParamRules
 import Driver.C07Rules2
+import Driver.C07Gen
 open CogentModel CogentModel.Calc
 
 /-- the integer hash-combine calc used by the correspondence harness:
@@ -112,6 +113,27 @@ def ctlSnap (g : Ctl.Graph Int) (s : Ctl.St Int) : J :=
 def ctlRun (g : Ctl.Graph Int) : Ctl.St Int → List (Ctl.Op Int) → List J
   | _, [] => []
   | s, o :: os => let s' := Ctl.step g s o; ctlSnap g s' :: ctlRun g s' os
+
+/-- `genctl`: a history executed by the GENERATED controller methods (`C07.genStep`) -/
+def parseGOp (j : J) : Except String (C07.GOp Int) := do
+  match ← j.toList with
+  | [J.str "assign", k, v] => do pure (.assign (← k.toNat) (← v.toInt))
+  | [J.str "enter"] => pure .enter
+  | [J.str "exit"] => pure .exit
+  | [J.str "xexit"] => pure .xexit
+  | [J.str "updall"] => pure .updateAll
+  | _ => throw "bad gen ctl op"
+
+def genCtlRun (g : Ctl.Graph Int) : Ctl.St Int → List (C07.GOp Int) → List J
+  | _, [] => []
+  | s, o :: os =>
+    match C07.genStep g s o with
+    | .ok s' => (match ctlSnap g s' with
+        | .obj kvs => J.obj (kvs ++ [("raised", J.bool false)])
+        | x => x) :: genCtlRun g s' os
+    | .error e => (match ctlSnap g s with
+        | .obj kvs => J.obj (kvs ++ [("raised", J.bool true), ("exc", .str e)])
+        | x => x) :: genCtlRun g s os
 
 /-! ### scoped parameter rules model -/
 
@@ -222,6 +244,13 @@ def handle (cmd : String) (j : J) : Except String J :=
     let r0 := CtlF.updateIntermediate g (CtlF.init0 g (fun i => s0.getD i 0))
     pure (J.obj [("init", ctlfSnap g.length r0.1 r0.2), ("steps", J.arr (ctlfRun g r0.1 ops))])
   | "rules2" => handleRules2 j
+  | "genrules" => C07GenDrv.handleGenRules j
+  | "genctl" => do
+    let g ← (← j.get "defns").toListOf parseDefn
+    let s0 ← (← j.get "settings").toListOf J.toInt
+    let ops ← (← j.get "ops").toListOf parseGOp
+    let st := Ctl.init g (fun i => s0.getD i 0)
+    pure (J.obj [("init", ctlSnap g st), ("steps", J.arr (genCtlRun g st ops))])
   | "compile" => do
     let ops ← match optField j "block" with
       | .null => do pure (Ctl.compileLf (.simple (← parseSimple j)))
